@@ -84,7 +84,10 @@ def check_run(rep, r, pc, stab, crit):
         if uncond:
             rep.ok('C01.R2', uncond[0].where, 'validity family %s present [%s]' % (k, cfg), got=uncond[0].fam.text(), want=ref.text(), loc=uncond[0].loc)
             # nothing may leave the path before it
-            exits = [x for x in r.events if x.order < uncond[0].order and x.kind in ('return', 'raise') and x.sym_ifs]
+            # only a return in a function that is still on the call stack of the constraint can skip it
+            stack = uncond[0].calls
+            exits = [x for x in r.events if x.order < uncond[0].order and x.kind in ('return', 'raise') and x.sym_ifs
+                     and x.calls == stack[:len(x.calls)]]
             rep.check(not exits, 'C01.R3', uncond[0].where, 'family %s is reached on every path to the first solve [%s]' % (k, cfg),
                       got=[x.loc for x in exits], construct='conditional exit before %s' % k)
             continue
@@ -137,88 +140,89 @@ def check_grouping(rep, repo, groups=GROUPS, rule='C01.R4'):
         check_scatter(rep, rule, f, effs, attr, count, key, off)
 
 
-def check_scatter(rep, rule, f, effs, attr, count, key, off, sizeterm=None):
+def check_scatter(rep, rule, f, effs, attr, count, key, off, sizeterm=None, size_ok=None):
+    """attr = group-by of ALL pairs by pair.<key> - off into `count` slots (loops, comprehensions, helpers, lambdas alike)."""
+    from ..shapes import extract_scatter, all_pairs_chain
     target = A(lp.MODEL, attr)
-    inits = [e for e, c in iter_effects(effs) if e.kind == 'store' and e.target == target]
-    apps = [(e, c) for e, c in iter_effects(effs) if e.kind == 'append' and (e.target == target or (e.target[0] == 'idx' and e.target[1] == target))]
-    stores = [(e, c) for e, c in iter_effects(effs) if e.kind in ('store', 'augstore') and e.target[0] == 'idx' and e.target[1] == target]
-    if stores:
-        e = stores[0][0]
-        rep.fail(rule, f.where, '%s accumulates every pair (never overwrites a slot)' % attr, got='slot assignment %s = %s' % (show(e.target), show(e.value)[:80]),
-                 want='append of each pair', construct='%s slot overwritten' % attr, loc=e.loc)
+    try:
+        sc = extract_scatter(effs, target)
+    except Unknown as u:
+        rep.inconclusive(rule, f.where, '%s is built by a recognised group-by' % attr, got=str(u))
         return
-    # initialiser: [[] for _ in range(count)]
-    okinit = False
-    if len(inits) == 1:
-        v = inits[0].value
-        if v[0] == 'comp' and len(v[1]) == 1 and v[2] == ('list', ()):
-            dom = v[1][0][0][3]
-            want = sizeterm if sizeterm is not None else A(lp.MODEL, count)
-            okinit = dom == CALL(S('range'), [want]) and v[1][0][1] == TRUE
-    rep.check(okinit, rule, f.where, '%s is initialised to one empty list per agent (%s)' % (attr, count),
-              got=show(inits[0].value) if inits else 'no initialiser', want='[[] for _ in range(%s)]' % count,
-              construct='%s initialiser' % attr, loc=inits[0].loc if inits else None)
-    good = []
-    for e, ctx in apps:
-        fors = [c for c, _ in ctx if c.kind == 'for']
-        ifs = [c for c, _ in ctx if c.kind == 'if']
-        if e.op != 'append' or e.target[0] != 'idx' or len(fors) != 2 or ifs:
-            continue
-        rows, elem = fors[0].binder, fors[1].binder
-        if rows[3] != A(lp.MODEL, 'pairs') or elem[3] != rows or e.value != elem:
-            continue
-        k = e.target[2]
-        wantk = A(elem, key) if off == 0 else BIN('Sub', A(elem, key), C(off))
-        if k == wantk:
-            good.append(e)
-        else:
-            rep.fail(rule, f.where, 'each pair is filed under its own %s' % key, got=show(k), want=show(wantk),
-                     construct='%s key %s' % (attr, show(k).replace(show(elem), 'pair')), loc=e.loc)
-            return
-    if len(good) == 1 and len(apps) == 1:
-        rep.ok(rule, f.where, '%s = scatter of all pairs by pair.%s' % (attr, key), got='for row in pairs: for pair in row: %s[pair.%s%s].append(pair)' % (attr, key, '' if not off else ' - %d' % off), loc=good[0].loc)
-    elif not apps:
-        rep.fail(rule, f.where, 'every pair is appended to %s' % attr, got='no append into %s' % attr, want='append of each pair', construct='%s no-append' % attr)
+    for kind, msg, e in sc.problems:
+        rep.fail(rule, f.where, '%s accumulates every pair (never overwrites a slot)' % attr, got=msg, want='append of each pair', construct='%s slot overwritten' % attr, loc=e.loc)
+        return
+    want = sizeterm if sizeterm is not None else A(lp.MODEL, count)
+    if sc.size is None:
+        rep.inconclusive(rule, f.where, '%s has one list per agent (%s)' % (attr, count), got='slots are appended on demand')
+        oksize = True
     else:
-        e = apps[0][0]
-        ifs = [c for c, _ in apps[0][1] if c.kind == 'if']
-        if ifs:
-            rep.fail(rule, f.where, 'ALL pairs are filed (no filter)', got='append guarded by ' + show(ifs[0].cond), want='unconditional', construct='%s filtered' % attr, loc=e.loc)
-        else:
-            rep.inconclusive(rule, f.where, '%s grouping idiom recognised' % attr, got=show(e.target) + ' <- ' + show(e.value), loc=e.loc)
+        oksize = size_ok(sc.size) if size_ok is not None else sc.size == want
+    rep.check(oksize, rule, f.where, '%s has one (initially empty) list per agent (%s)' % (attr, count), got=show(sc.size)[:160], want='[[] for _ in range(%s)]' % count,
+              construct='%s size %s' % (attr, show(sc.size)[:80]), loc=sc.init_loc.loc if sc.init_loc else None)
+    if not sc.entries:
+        rep.fail(rule, f.where, 'every pair is appended to %s' % attr, got='no append into %s' % attr, want='append of each pair', construct='%s no-append' % attr)
+        return
+    if len(sc.entries) != 1:
+        rep.inconclusive(rule, f.where, '%s is filled by a single scatter' % attr, got='%d append sites' % len(sc.entries))
+        return
+    op, k, val, chain, e = sc.entries[0]
+    if op not in ('appendidx',):
+        rep.fail(rule, f.where, 'pairs are appended to their list', got=op, want='append', construct='%s filled by %s' % (attr, op), loc=e.loc)
+        return
+    ap = all_pairs_chain(chain)
+    if ap is None:
+        rep.fail(rule, f.where, 'the scatter ranges over ALL pairs of ALL students', got=[show(b[3])[:60] + (' if ' + show(g)[:60] if g != TRUE else '') for b, g in chain],
+                 want='for row in pairs: for pair in row', construct='%s domain' % attr, loc=e.loc)
+        return
+    elem, rows, g = ap
+    if g != TRUE:
+        rep.fail(rule, f.where, 'ALL pairs are filed (no filter)', got='append guarded by ' + show(g).replace(show(elem), 'pair'), want='unconditional', construct='%s filtered' % attr, loc=e.loc)
+        return
+    rep.check(val == elem, rule, f.where, 'the pair itself is filed', got=show(val).replace(show(elem), 'pair'), want='pair', construct='%s value' % attr, loc=e.loc)
+    wantk = A(elem, key) if off == 0 else BIN('Sub', A(elem, key), C(off))
+    rep.check(k == wantk, rule, f.where, 'each pair is filed under its own %s%s' % (key, '' if not off else ' - %d' % off), got=show(k).replace(show(elem), 'pair'),
+              want=show(wantk).replace(show(elem), 'pair'), construct='%s key %s' % (attr, show(k).replace(show(elem), 'pair')), loc=e.loc)
 
 
 # ---- R5 ---------------------------------------------------------------------------------------------
 def check_readback(rep, repo):
+    from ..shapes import selection, all_pairs_chain
     rule = 'C01.R5'
-    for meth in ('_get_pair_assignments', '_get_pair_assignments_with_none'):
-        f = repo.method('Model', meth)
-        it = Interp(repo)
-        try:
-            effs, rv = it.run(f, {}, selfterm=lp.MODEL)
-        except Unknown as u:
-            rep.inconclusive(rule, f.where, 'read-back function is inside the interpreted fragment', got=str(u))
-            continue
-        # selected pairs: appended values under a guard on pair.lp_var.varValue, ranging over all pairs
-        sel = []
-        for e, ctx in iter_effects(effs):
-            if e.kind == 'acc' and e.op == 'append' and e.value[0] == 'bvar':
-                fors = [c for c, _ in ctx if c.kind == 'for']
-                ifs = [(c, br) for c, br in ctx if c.kind == 'if']
-                sel.append((e, fors, ifs))
-        if not sel:
-            rep.fail(rule, f.where, 'assigned pairs are collected', got='no pair is appended', construct='no-append')
-            continue
-        for e, fors, ifs in sel:
-            pair = e.value
-            okdom = len(fors) == 2 and fors[0].binder[3] == A(lp.MODEL, 'pairs') and fors[1].binder[3] == fors[0].binder and pair == fors[1].binder
-            rep.check(okdom, rule, f.where, 'read-back ranges over all pairs of all students', got=[show(x.binder[3]) for x in fors],
-                      want='for row in pairs: for pair in row', construct='readback domain', loc=e.loc)
-            guards = [c.cond if br else NOT(c.cond) for c, br in ifs]
+    f = repo.method('Model', '_get_pair_assignments')
+    it = Interp(repo)
+    try:
+        effs, rv = it.run(f, {}, selfterm=lp.MODEL)
+    except Unknown as u:
+        rep.inconclusive(rule, f.where, 'read-back function is inside the interpreted fragment', got=str(u))
+        rv = None
+    if rv is not None:
+        sel = selection(rv)
+        if sel is None:
+            if contains(rv, lambda x: x[0] == 'top'):
+                rep.inconclusive(rule, f.where, 'the reported pairs are a selection from all pairs', got=show(rv)[:200])
+            else:
+                rep.fail(rule, f.where, 'read-back ranges over all pairs of all students and returns the selected pairs', got=show(rv)[:200],
+                         want='[pair for row in pairs for pair in row if pair.lp_var.varValue]', construct='readback domain')
+        else:
+            pair, g = sel
             vv = A(A(pair, 'lp_var'), 'varValue')
-            okg = len(guards) == 1 and truthy_of(guards[0], vv)
-            rep.check(okg, rule, f.where, 'a pair is reported iff its own decision variable is set', got=[show(g) for g in guards],
-                      want='pair.lp_var.varValue (truthy, or > threshold in (0,1))', construct='readback guard ' + ' & '.join(show(g).replace(show(pair), 'pair') for g in guards), loc=e.loc)
+            rep.check(truthy_of(g, vv), rule, f.where, 'a pair is reported iff its own decision variable is set', got=show(g).replace(show(pair), 'pair'),
+                      want='pair.lp_var.varValue (truthy, or > threshold in (0,1))', construct='readback guard ' + show(g).replace(show(pair), 'pair'))
+    # per-student variant (used by the stability check)
+    h = repo.method('Model', '_get_pair_assignments_with_none')
+    it = Interp(repo)
+    try:
+        effs, rv2 = it.run(h, {}, selfterm=lp.MODEL)
+        guards = []
+        for x in walk(rv2):
+            if x[0] == 'attr' and x[2] == 'varValue':
+                guards.append(x)
+        ok = bool(guards) and all(x[1][0] == 'attr' and x[1][2] == 'lp_var' for x in guards)
+        rep.check(ok, rule, h.where, 'the per-student read-back selects by the decision variables too', got=[show(x) for x in guards][:3], want='pair.lp_var.varValue',
+                  construct='with_none guard')
+    except Unknown as u:
+        rep.inconclusive(rule, h.where, 'per-student read-back is inside the interpreted fragment', got=str(u))
     f = repo.method('Model', '_get_matching_string')
     it = Interp(repo)
     try:
@@ -232,11 +236,13 @@ def check_readback(rep, repo):
     if rv[0] == 'call' and rv[1] == A(C(' '), 'join') and len(rv[2]) == 1 and rv[2][0][0] == 'accum':
         acc = rv[2][0]
         pre, entries = acc[1], acc[2]
-        if pre == BIN('Mult', ('list', (C('0'),)), A(lp.MODEL, 'num_students')) and len(entries) == 1:
+        zero = ('list', (C('0'),))
+        n = A(lp.MODEL, 'num_students')
+        if pre in (BIN('Mult', zero, n), BIN('Mult', n, zero)) and len(entries) == 1:
             op, idx, val, ch = entries[0]
             b = ch[0][0]
-            ok = (op == 'setidx' and len(ch) == 1 and ch[0][1] == TRUE and b[3] == S('pair_assignments')
-                  and idx == A(b, 'student_index') and val == CALL(S('str'), [A(b, 'projectID')]))
+            ok = (op == 'setidx' and len(ch) == 1 and ch[0][1] == TRUE and b[3] == S(f.params[1])
+                  and idx in (A(b, 'student_index'), BIN('Sub', A(b, 'studentID'), C(1))) and val == CALL(S('str'), [A(b, 'projectID')]))
     rep.check(ok, rule, f.where, "matching line: '0' per student, project ID written at the student's own index",
               got=got[:200], want="' '.join(['0']*num_students with [pair.student_index] = str(pair.projectID))", construct='matching-string schema')
 
